@@ -174,12 +174,18 @@ impl Pair {
 }
 
 pub fn round(writer: &mut Sut, replica: &mut Replica, plan: &Plan) -> Result<RoundResult, Fail> {
+    round_from(writer.core.as_mut().unwrap(), &writer.model, replica, plan)
+}
+
+/// One honest round served by any core that holds the data (`src_model` = what it holds): the
+/// writer, or a replica that acts as the source for a further replica.
+pub fn round_from(src_core: &mut Hypercore, src_model: &Model, replica: &mut Replica, plan: &Plan) -> Result<RoundResult, Fail> {
     let req = replica.make_request(plan)?;
-    let proof = match create_proof(writer.core(), &req) {
+    let proof = match create_proof(src_core, &req) {
         Err(p) => return Err(fail(format!("create_proof:panic:{}", exec::panic_sig(&p)), format!("{p}; request {req:?}"))),
         Ok(Err(e)) => return Err(fail(format!("create_proof:err:{}", ops::err_sig(&e)), format!("create_proof refused a well-formed request {req:?}: {e}"))),
         Ok(Ok(None)) => {
-            let cleared = plan.block.map(|i| writer.model.get(i).is_none()).unwrap_or(false);
+            let cleared = plan.block.map(|i| src_model.get(i).is_none()).unwrap_or(false);
             if cleared {
                 return Ok(RoundResult::NoProofCleared);
             }
@@ -188,7 +194,7 @@ pub fn round(writer: &mut Sut, replica: &mut Replica, plan: &Plan) -> Result<Rou
         Ok(Ok(Some(p))) => p,
     };
     if let Some(i) = plan.block {
-        if writer.model.get(i).is_none() {
+        if src_model.get(i).is_none() {
             return Err(fail("create_proof:proof-for-cleared-block", format!("writer produced a proof for cleared block {i}")));
         }
     }
@@ -197,29 +203,33 @@ pub fn round(writer: &mut Sut, replica: &mut Replica, plan: &Plan) -> Result<Rou
         Ok(Err(e)) => Err(fail(format!("verify:err:{}", ops::err_sig(&e)), format!("replica rejected an honest proof for {req:?}: {e}"))),
         Ok(Ok(false)) => Err(fail("verify:refused-false", format!("replica answered false to an honest proof for {req:?}"))),
         Ok(Ok(true)) => {
-            replica.model_accept(&proof, &writer.model);
+            replica.model_accept(&proof, src_model);
             Ok(RoundResult::Applied(proof))
         }
     }
 }
 
 pub fn complete(writer: &mut Sut, replica: &mut Replica) -> Result<u64, Fail> {
+    complete_from(writer.core.as_mut().unwrap(), &writer.model, replica)
+}
+
+pub fn complete_from(src_core: &mut Hypercore, src_model: &Model, replica: &mut Replica) -> Result<u64, Fail> {
     let mut rounds = 0;
-    let wl = writer.model.length();
+    let wl = src_model.length();
     let rl = replica.model.length();
     if rl < wl {
-        round(writer, replica, &Plan { upgrade: Some(wl - rl), ..Default::default() }).map_err(|f| fail(format!("complete:{}", f.sig), f.detail))?;
+        round_from(src_core, src_model, replica, &Plan { upgrade: Some(wl - rl), ..Default::default() }).map_err(|f| fail(format!("complete:{}", f.sig), f.detail))?;
         rounds += 1;
     }
     for i in 0..wl {
-        if replica.model.get(i).is_none() && writer.model.get(i).is_some() {
-            round(writer, replica, &Plan { block: Some(i), ..Default::default() }).map_err(|f| fail(format!("complete:{}", f.sig), f.detail))?;
+        if replica.model.get(i).is_none() && src_model.get(i).is_some() {
+            round_from(src_core, src_model, replica, &Plan { block: Some(i), ..Default::default() }).map_err(|f| fail(format!("complete:{}", f.sig), f.detail))?;
             rounds += 1;
         }
     }
     for i in 0..wl {
         let a = replica.model.get(i);
-        let b = writer.model.get(i);
+        let b = src_model.get(i);
         if b.is_some() && a != b {
             return Err(fail("complete:not-converged", format!("block {i} differs after completion")));
         }
